@@ -1,22 +1,74 @@
 """Build flavours and sanitizer stages (DESIGN.md §3.2)."""
+import json
+import os
+import re
 import subprocess
+import time
 
+ROOT = os.path.dirname(os.path.dirname(os.path.abspath(__file__)))
+TARGET = os.path.join(ROOT, "target")
+TRIPLE = "x86_64-unknown-linux-gnu"
+
+ASAN_FLAGS = "-Zsanitizer=address -Cforce-frame-pointers=yes --cap-lints=warn"
+ASAN_OPTIONS = "detect_leaks=0:abort_on_error=1:halt_on_error=1:allocator_may_return_null=1"
+MIRI1_FLAGS = "-Zmiri-disable-validation -Zmiri-ignore-leaks -Zmiri-disable-isolation"
+MIRI2_FLAGS = "-Zmiri-ignore-leaks -Zmiri-disable-isolation"
+
+# fp_root: where the fingerprints of this flavour live (sodg's are removed when /repo changed)
 FLAVOURS = {
     "mon": {
         "dir": "harness",
-        "clean": ["cargo", "clean", "--offline", "--profile", "mon", "-p", "sodg"],
+        "env": {"CARGO_TARGET_DIR": TARGET},
+        "fp_root": os.path.join(TARGET, "mon"),
         "build": ["cargo", "build", "--offline", "--profile", "mon"],
         "binary": "mon/sodg-monitor",
     },
     "rel": {
         "dir": "harness",
-        "clean": ["cargo", "clean", "--offline", "--release", "-p", "sodg"],
+        "env": {"CARGO_TARGET_DIR": TARGET},
+        "fp_root": os.path.join(TARGET, "release"),
         "build": ["cargo", "build", "--offline", "--release"],
         "binary": "release/sodg-monitor",
     },
+    "asan": {
+        "dir": "harness",
+        "env": {"CARGO_TARGET_DIR": os.path.join(TARGET, "asan")},
+        "rustflags": ASAN_FLAGS,
+        "fp_root": os.path.join(TARGET, "asan"),
+        "build": ["cargo", "+nightly", "build", "--offline", "--profile", "mon", "--target", TRIPLE],
+        "binary": f"asan/{TRIPLE}/mon/sodg-monitor",
+    },
+    "miri1": {
+        "dir": "harness",
+        "env": {"CARGO_TARGET_DIR": os.path.join(TARGET, "miri1"), "MIRIFLAGS": MIRI1_FLAGS},
+        "fp_root": os.path.join(TARGET, "miri1"),
+        "build": ["cargo", "+nightly", "miri", "run", "--offline", "--", "canary", "none"],
+        "binary": None,
+    },
+    "miri2": {
+        "dir": "harness-miri2",
+        "env": {"CARGO_TARGET_DIR": os.path.join(TARGET, "miri2"), "MIRIFLAGS": MIRI2_FLAGS},
+        "fp_root": os.path.join(TARGET, "miri2"),
+        "build": ["cargo", "+nightly", "miri", "run", "--offline", "--", "canary", "none"],
+        "binary": None,
+    },
 }
 
-SETUP_FLAVOURS = ["mon"]
+SETUP_FLAVOURS = ["mon", "asan", "miri1", "miri2"]
+
+_FP = re.compile(r"^sodg-[0-9a-f]+$")
+
+
+def forget_sodg(flavour):
+    """Remove cargo's fingerprints of the sodg crate so that it is rebuilt whatever the mtimes say."""
+    root = FLAVOURS[flavour]["fp_root"]
+    for d, subdirs, _ in os.walk(root):
+        if os.path.basename(d) == ".fingerprint":
+            for s in list(subdirs):
+                if _FP.match(s):
+                    subprocess.run(["rm", "-rf", os.path.join(d, s)])
+            subdirs[:] = []
+
 
 _versions = None
 
@@ -25,13 +77,210 @@ def tool_versions():
     global _versions
     if _versions is None:
         _versions = {}
-        for name, cmd in (("rustc", ["rustc", "--version"]), ("cargo", ["cargo", "--version"])):
+        for name, cmd in (("rustc", ["rustc", "--version"]), ("cargo", ["cargo", "--version"]),
+                          ("rustc_nightly", ["rustc", "+nightly", "--version"]),
+                          ("miri", ["cargo", "+nightly", "miri", "--version"]),
+                          ("valgrind", ["valgrind", "--version"])):
             try:
-                _versions[name] = subprocess.run(cmd, capture_output=True, text=True).stdout.strip()
-            except OSError:
+                _versions[name] = subprocess.run(cmd, capture_output=True, text=True, timeout=60).stdout.strip()
+            except (OSError, subprocess.TimeoutExpired):
                 _versions[name] = "?"
     return _versions
 
 
-def run_stage(stage, prop, tier, seed, plan, workdir, build, run_shards, aggregate, log):
-    raise NotImplementedError(stage)
+# ------------------------------------------------------------------------------------------------
+
+MIRI_MEMORY_CLASSES = [
+    ("out-of-bounds", re.compile(r"memory access failed|out-of-bounds|beyond the end of the allocation|pointer .* is dangling|dangling pointer")),
+    ("use-after-free", re.compile(r"has been freed|use-after-free|dereferenced after")),
+    ("double-free", re.compile(r"deallocat", re.I)),
+    ("uninitialised-read", re.compile(r"uninitialized", re.I)),
+]
+
+
+def classify_miri(stderr):
+    """Return (kind, headline): kind in {None, 'violation', 'other_ub'}."""
+    m = re.search(r"error: Undefined Behavior: (.*)", stderr)
+    if not m:
+        if re.search(r"error: (unsupported operation|the evaluated program)", stderr):
+            return ("other_ub", re.search(r"error: (.*)", stderr).group(1)[:300])
+        return (None, "")
+    head = m.group(1)
+    for name, rx in MIRI_MEMORY_CLASSES:
+        if rx.search(head):
+            if name == "uninitialised-read" and "constructing invalid value" in head:
+                continue
+            return ("violation", f"{name}: {head[:300]}")
+    # Stacked Borrows: an access outside the range the pointer was created for is a sub-object overflow
+    sb = re.search(r"at alloc\d+\[(0x[0-9a-f]+)", head)
+    rng = re.search(r"retag at offsets \[(0x[0-9a-f]+)\.\.(0x[0-9a-f]+)\]", stderr)
+    if "borrow stack" in head and sb and rng:
+        off = int(sb.group(1), 16)
+        lo, hi = int(rng.group(1), 16), int(rng.group(2), 16)
+        if off < lo or off >= hi:
+            return ("violation", f"out-of-bounds inside an allocation (offset {off:#x} outside [{lo:#x}..{hi:#x})): {head[:240]}")
+    return ("other_ub", head[:300])
+
+
+def _run(cmd, env, cwd, timeout):
+    try:
+        p = subprocess.run(cmd, env=env, cwd=cwd, capture_output=True, text=True, timeout=timeout, errors="replace")
+        return p.returncode, p.stdout, p.stderr
+    except subprocess.TimeoutExpired as e:
+        return "watchdog", (e.stdout or b"").decode(errors="replace") if isinstance(e.stdout, bytes) else (e.stdout or ""), \
+            (e.stderr or b"").decode(errors="replace") if isinstance(e.stderr, bytes) else (e.stderr or "")
+
+
+def _env_for(flavour, base_env):
+    env = dict(base_env)
+    spec = FLAVOURS[flavour]
+    env.update(spec.get("env", {}))
+    env["RUSTFLAGS"] = spec.get("rustflags", "--cap-lints=warn")
+    return env
+
+
+def _shard_cmd(prefix, prop, tier, seed, i, shards, count, workdir, budget, mode, out):
+    return prefix + ["run", "--prop", prop, "--seed", str(seed), "--shard", str(i), "--shards", str(shards),
+                     "--count", str(count), "--tier", tier, "--work", workdir,
+                     "--replays", os.path.join(ROOT, "replays"), "--budget", str(budget), "--mode", mode, "--out", out]
+
+
+def run_stage(stage, prop, tier, seed, plan, workdir, build, cargo_env, log):
+    """Run the C07 workload under one instrument. Returns dict(coverage, violations, inconclusive, ...)."""
+    res = {"coverage": {}, "violations": [], "inconclusive": [], "evaluations": 0, "nontrivial": [], "calls": 0,
+           "samples": []}
+    sp = plan["stage_plans"][stage]
+    t0 = time.time()
+    try:
+        if stage == "memcheck":
+            binary, _, _ = build("mon")
+            flavour = "mon"
+        else:
+            binary, _, _ = build(stage)
+            flavour = stage
+    except Exception as e:  # noqa: BLE001
+        res["inconclusive"].append(f"{stage}: build failed: {str(e)[-1500:]}")
+        return res
+    env = _env_for(flavour, cargo_env())
+    cwd = os.path.join(ROOT, FLAVOURS[flavour]["dir"])
+    if stage == "asan":
+        env["ASAN_OPTIONS"] = ASAN_OPTIONS
+        prefix = [binary]
+        canaries = [("oob", r"AddressSanitizer: heap-buffer-overflow")]
+    elif stage in ("miri1", "miri2"):
+        prefix = ["cargo", "+nightly", "miri", "run", "--offline", "--"]
+        canaries = ([("oob", r"Undefined Behavior: .*(memory access failed|out-of-bounds|beyond the end)"),
+                     ("uninit", r"Undefined Behavior: .*uninitialized")] if stage == "miri1"
+                    else [("oob", r"Undefined Behavior"), ("subobj", r"borrow stack")])
+    else:
+        prefix = ["valgrind", "--error-exitcode=99", "--leak-check=no", "--track-origins=yes", "-q", binary]
+        canaries = [("oob", r"Invalid read"), ("uninit", r"uninitialised")]
+    # 1. canaries: the instrument must report a deliberately wrong access of the harness itself
+    canary_res = {}
+    for kind, rx in canaries:
+        rc, so, se = _run(prefix + ["canary", kind], env, cwd, 900)
+        ok = re.search(rx, se) is not None
+        canary_res[f"{stage}_{kind}"] = "reported" if ok else f"NOT reported (rc={rc})"
+        if not ok:
+            res["inconclusive"].append(f"{stage}: canary {kind} was not reported, the instrument is not active")
+    # control: a correct run is silent
+    rc, so, se = _run(prefix + ["canary", "none"], env, cwd, 900)
+    if rc != 0 or "canary none" not in so:
+        res["inconclusive"].append(f"{stage}: control run failed rc={rc}: {se[-300:]}")
+    res["coverage"]["canaries"] = canary_res
+    if res["inconclusive"]:
+        return res
+    # 2. the hostile workload, sharded into short processes
+    shards, count, par = sp["shards"], sp["count"], sp.get("parallel", os.cpu_count() or 4)
+    procs, pending, done = [], list(range(shards)), []
+
+    def start(i):
+        out = os.path.join(workdir, f"shard-{stage}-{i}.json")
+        errp = os.path.join(workdir, f"shard-{stage}-{i}.err")
+        cmd = _shard_cmd(prefix, prop, tier, seed, i, shards, count, workdir, sp["budget_s"], stage, out)
+        errf = open(errp, "w")
+        return (i, out, errp, subprocess.Popen(cmd, env=env, cwd=cwd, stdout=subprocess.DEVNULL, stderr=errf), errf,
+                time.time())
+
+    deadline = sp["watchdog_s"]
+    while pending or procs:
+        while pending and len(procs) < par:
+            procs.append(start(pending.pop(0)))
+        time.sleep(0.2)
+        for pr in list(procs):
+            i, out, errp, p, errf, st = pr
+            rc = p.poll()
+            if rc is None and time.time() - st > deadline:
+                p.kill()
+                p.wait()
+                rc = "watchdog"
+            if rc is not None:
+                errf.close()
+                procs.remove(pr)
+                done.append((i, out, errp, rc))
+    reports = 0
+    tool_calls = 0
+    for i, out, errp, rc in sorted(done):
+        se = open(errp, errors="replace").read()
+        data = None
+        if os.path.exists(out):
+            try:
+                data = json.load(open(out))
+            except Exception:  # noqa: BLE001
+                data = None
+        logp = os.path.join(workdir, f"c07-{stage}-{i}.log")
+        last = ""
+        if os.path.exists(logp):
+            lines = open(logp, errors="replace").read().splitlines()
+            last = " | ".join(lines[-3:])
+        verdict = None
+        if stage == "asan":
+            m = re.search(r"ERROR: AddressSanitizer: ([a-z\-]+)", se)
+            if m:
+                verdict = ("violation", f"AddressSanitizer: {m.group(1)}; last calls: {last}")
+        elif stage in ("miri1", "miri2"):
+            kind, head = classify_miri(se)
+            if kind == "violation":
+                verdict = ("violation", f"Miri ({stage}): {head}; last calls: {last}")
+            elif kind == "other_ub":
+                verdict = ("other_ub", f"Miri ({stage}) reported UB outside the four classes of C07: {head}; last calls: {last}")
+        else:
+            if re.search(r"Invalid (read|write|free)|uninitialised|Mismatched free", se):
+                first = re.search(r"==\d+== (Invalid.*|Conditional.*|Use of uninit.*|Mismatched.*)", se)
+                verdict = ("violation", f"memcheck: {first.group(1) if first else 'error'}; last calls: {last}")
+        if verdict and verdict[0] == "violation":
+            reports += 1
+            path = os.path.join(ROOT, "replays", f"{prop}-{seed}-{stage}-{i}.txt")
+            with open(path, "w") as f:
+                f.write(f"# {verdict[1]}\n# re-run: shard {i} of {shards}, seed {seed}, count {count}, mode {stage}\n")
+                f.write(se[-8000:])
+                if os.path.exists(logp):
+                    f.write("\n# call log (last 200 lines)\n" + "\n".join(open(logp, errors="replace").read().splitlines()[-200:]))
+            res["violations"].append({"message": verdict[1], "replay": path, "signature": f"C07:{stage}"})
+            continue
+        if verdict and verdict[0] == "other_ub":
+            res["coverage"].setdefault("other_ub", []).append(verdict[1][:400])
+            res["inconclusive"].append(verdict[1][:400])
+            continue
+        if data is None or rc != 0:
+            if rc == "watchdog":
+                res["inconclusive"].append(f"{stage} shard {i}: watchdog fired")
+            else:
+                res["inconclusive"].append(f"{stage} shard {i}: exited with {rc} without a sanitizer report: {se[-300:]}")
+            continue
+        res["evaluations"] += data["evaluations"]
+        res["nontrivial"] += [f"{stage}:{h}" for h in data["nontrivial"]]
+        res["calls"] += data["calls"]
+        tool_calls += data["calls"]
+        for v in data["violations"]:
+            res["violations"].append(v)
+        if data.get("inconclusive"):
+            res["inconclusive"].append(f"{stage} shard {i}: {data['inconclusive']}")
+        cnt = res["coverage"].setdefault("counters", {})
+        for k, v in data["counters"].items():
+            cnt[k] = cnt.get(k, 0) + v
+    res["coverage"].update({"calls_under_tool": tool_calls, "processes": shards, "histories": res["evaluations"],
+                            "reports": reports, "wall_s": round(time.time() - t0, 1)})
+    log(f"  stage {stage}: {res['evaluations']} histories, {tool_calls} calls, {reports} reports, "
+        f"{len(res['inconclusive'])} inconclusive, {time.time() - t0:.1f}s")
+    return res
